@@ -13,7 +13,9 @@ RULE = ("files: the sample tests/test_vec/rot_main.bsp and BSPs synthesised byte
         "lightmapped and Mesa; LZMA-compressed lumps and game lumps; non-empty water, faces, overlays, props, detail props, "
         "physics, visibility, pakfile; random bytes in the lumps that have no view). A case = (file, sequence of view reads, "
         "then save, re-read, save again). Sequences: none, every single view, every 2-subset (random order), random larger "
-        "subsets/orders, all views. Non-trivial = at least one view read; distinct by (file variant, sequence).")
+        "subsets/orders, all views; plus SESSIONS: 2-3 BSP objects over different variants alive at once with their opens, "
+        "reads and saves interleaved at random, every object compared with the single-object model after every step. "
+        "Non-trivial = at least one view read; distinct by (file variant, sequence) / by session.")
 TRUSTED = ["model: C10.access / C10.save (lean/Srctools/Model/C10.lean) over the tables regenerated from bsp.py by "
            "tools/gen_bsp.py; lump contents are abstract (provenance tags in the driver)",
            "the reader/writer view dependencies used by the driver on a concrete file are the ones traced on that file "
@@ -108,6 +110,39 @@ def first_diff(a, b, path=''):
     return None if a == b else f'{path}: {a!r} != {b!r}'[:300]
 
 
+def compare_saved(f, out1, T, any_read):
+    """The direct oracle: the saved file `out1` must read back as file `f` (header, view-less lumps byte for byte,
+    all lumps if nothing was read, equal canonical dump of every view).  -> [(key, what)]"""
+    problems = []
+    hdr0, raw0, graw0, dump0 = f.base
+    gids = T['game_ids']
+    try:
+        with U.quiet():
+            hdr1, raw1, graw1, dump1 = U.file_summary(out1)
+    except Exception as e:
+        problems.append((f'unreadable:{type(e).__name__}', f'the saved file cannot be read back: {type(e).__name__}: {e}'))
+        return problems
+    if hdr1 != hdr0:
+        problems.append(('header', 'header differs after save: ' + str(first_diff(hdr0, hdr1, 'hdr'))))
+    for l in sorted(raw0):
+        if not T['owned'][l] and l != 35 and raw1.get(l) != raw0[l]:
+            problems.append((f'raw:{T["lump_names"].get(l, l)}', f'lump {T["lump_names"].get(l, l)} has no parsed view but its bytes changed ({len(raw0[l])} -> {len(raw1.get(l, b""))} bytes)'))
+    for g in graw0:
+        if g.decode('latin-1') not in gids and graw1.get(g) != graw0[g]:
+            problems.append((f'raw:game:{g.decode("latin-1")}', f'game lump {g!r} has no parsed view but its bytes changed'))
+    if not any_read:
+        for l in sorted(raw0):
+            if l != 35 and raw1.get(l) != raw0[l]:
+                problems.append((f'raw-noaccess:{T["lump_names"].get(l, l)}', f'no view was read, but lump {T["lump_names"].get(l, l)} changed'))
+        for g in graw0:
+            if graw1.get(g) != graw0[g]:
+                problems.append((f'raw-noaccess:game:{g.decode("latin-1")}', f'no view was read, but game lump {g!r} changed'))
+    for view in dump0:
+        if dump1.get(view) != dump0[view]:
+            problems.append((f'content:{view}', f'parsed content of `{view}` differs after save: ' + str(first_diff(dump0[view], dump1.get(view), view))))
+    return problems
+
+
 def impl_case(f, seq, T, tmp, tag='c'):
     """Runs (open; read the views of `seq`; save; re-read; save again) on the implementation.
     Returns (steps, problems): steps = one observation per read plus one after save;
@@ -134,30 +169,10 @@ def impl_case(f, seq, T, tmp, tag='c'):
         problems.append((f'exception:{type(e).__name__}', f'{type(e).__name__}: {e} while reading views / saving'))
         return steps, problems, None
     # ---- the property, on the saved file
-    try:
-        with U.quiet():
-            hdr1, raw1, graw1, dump1 = U.file_summary(out1)
-    except Exception as e:
-        problems.append((f'unreadable:{type(e).__name__}', f'the saved file cannot be read back: {type(e).__name__}: {e}'))
+    probs = compare_saved(f, out1, T, bool(seq))
+    problems += probs
+    if any(k.startswith('unreadable') for k, _ in probs):
         return steps, problems, orig
-    if hdr1 != hdr0:
-        problems.append(('header', 'header differs after save: ' + str(first_diff(hdr0, hdr1, 'hdr'))))
-    for l in sorted(raw0):
-        if not T['owned'][l] and l != 35 and raw1.get(l) != raw0[l]:
-            problems.append((f'raw:{T["lump_names"].get(l, l)}', f'lump {T["lump_names"].get(l, l)} has no parsed view but its bytes changed ({len(raw0[l])} -> {len(raw1.get(l, b""))} bytes)'))
-    for g in graw0:
-        if g.decode('latin-1') not in gids and graw1.get(g) != graw0[g]:
-            problems.append((f'raw:game:{g.decode("latin-1")}', f'game lump {g!r} has no parsed view but its bytes changed'))
-    if not seq:
-        for l in sorted(raw0):
-            if l != 35 and raw1.get(l) != raw0[l]:
-                problems.append((f'raw-noaccess:{T["lump_names"].get(l, l)}', f'no view was read, but lump {T["lump_names"].get(l, l)} changed'))
-        for g in graw0:
-            if graw1.get(g) != graw0[g]:
-                problems.append((f'raw-noaccess:game:{g.decode("latin-1")}', f'no view was read, but game lump {g!r} changed'))
-    for view in dump0:
-        if dump1.get(view) != dump0[view]:
-            problems.append((f'content:{view}', f'parsed content of `{view}` differs after save: ' + str(first_diff(dump0[view], dump1.get(view), view))))
     # ---- saving the result again changes nothing
     try:
         with U.quiet():
@@ -357,6 +372,134 @@ def layout_tie(ctx, drv, files, tmp):
         ctx.traces_vs_impl += 1
 
 
+# ----------------------------------------------------------------------------- sessions: several BSP objects alive at once
+
+def gen_session(rng, files, nviews):
+    """2-3 objects over DIFFERENT files; ops [obj, kind, arg]: 'open', 'read' (view id), 'save'. Every object is opened,
+    the opens are interleaved with the other objects' reads and saves, and every object is saved at least once after
+    another object was opened."""
+    k = rng.choice([2, 2, 3])
+    fs = rng.sample(range(len(files)), k)
+    ops = []
+    for o in range(k):
+        body = [[o, 'read', rng.randrange(nviews)] for _ in range(rng.randrange(0, 4))]
+        body.append([o, 'save', None])
+        if rng.random() < 0.5:
+            body += [[o, 'read', rng.randrange(nviews)] for _ in range(rng.randrange(1, 3))] + [[o, 'save', None]]
+        ops.append([[o, 'open', None]] + body)
+    # random interleaving that keeps each object's own order
+    merged = []
+    idx = [0] * k
+    # force the shape "open 0, open 1 before 0's first save" often
+    while any(idx[o] < len(ops[o]) for o in range(k)):
+        live = [o for o in range(k) if idx[o] < len(ops[o])]
+        w = [3.0 if ops[o][idx[o]][1] == 'open' else 1.0 for o in live]
+        o = rng.choices(live, weights=w)[0]
+        merged.append(ops[o][idx[o]]); idx[o] += 1
+    return {'files': [files[i].label for i in fs], 'ops': merged}
+
+
+def run_session(sess, fmap, T, tmp, tag='sess'):
+    """Runs a session on the implementation. Returns (records, problems): records = for every step and every live
+    object (obj, number of own read/save ops so far, observation); problems = oracle failures [(key, what)]."""
+    B = U.impl()
+    names, gids = T['names'], T['game_ids']
+    objs, origs, counts, anyread = {}, {}, {}, {}
+    records, problems = [], []
+    for step, (o, kind, arg) in enumerate(sess['ops']):
+        f = fmap[sess['files'][o]]
+        try:
+            with U.quiet():
+                if kind == 'open':
+                    objs[o] = B.BSP(f.path)
+                    origs[o] = U.raw_snapshot(objs[o], gids)
+                    counts[o] = 0
+                    anyread[o] = False
+                elif o not in objs:
+                    continue          # (shrunk sessions) op on an object that is not open
+                elif kind == 'read':
+                    getattr(objs[o], names[arg])
+                    counts[o] += 1
+                    anyread[o] = True
+                elif kind == 'save':
+                    out = os.path.join(tmp, f'{tag}_{o}.bsp')
+                    objs[o].save(out)
+                    counts[o] += 1
+                    for key, what in compare_saved(f, out, T, anyread[o]):
+                        problems.append((key, f'step {step} (save of object {o} = {f.label}): {what}'))
+        except Exception as e:
+            problems.append((f'exception:{type(e).__name__}', f'step {step} {kind} on object {o} = {f.label}: {type(e).__name__}: {e}'))
+            break
+        for j, b in objs.items():
+            empty, parsed = U.observe(b, gids)
+            records.append((step, j, counts[j], {'empty': empty, 'parsed': parsed, 'raw': U.raw_snapshot(b, gids)}, origs[j]))
+    return records, problems
+
+
+def session_model_ops(sess, o, T):
+    return [(arg if kind == 'read' else -1) for (oo, kind, arg) in sess['ops'] if oo == o and kind in ('read', 'save')]
+
+
+def compare_session(ctx, sess, records, replies, T):
+    """Each object against the single-object model run on its own file, after EVERY step of the session (an object must
+    not change while another one is operated)."""
+    case = {'session': sess}
+    main_of = T['main']
+    for (step, j, cnt, obs, orig) in records:
+        if cnt == 0:
+            m_parsed, raw_codes = [], None
+        else:
+            sm = replies[j]['steps'][cnt - 1]
+            m_parsed = sorted(main_of[v] for v, q in sm['parsed'])
+            raw_codes = sm['raw']
+        where = f'object {j} ({sess["files"][j]}) after step {step} {sess["ops"][step]}'
+        if m_parsed != obs['parsed']:
+            ctx.disagree(case, {'parsed': obs['parsed']}, {'parsed': m_parsed}, '_parsed_lumps keys of ' + where)
+            return False
+        for l, data in obs['raw'].items():
+            code = 1 if raw_codes is None else dict(map(tuple, raw_codes)).get(l, 1)
+            if code == 0 and data != b'':
+                ctx.disagree(case, f'lump {l} has {len(data)} bytes', 'emptied', 'lump data of ' + where)
+                return False
+            if code == 1 and data != orig.get(l):
+                ctx.disagree(case, f'lump {l} is not the data this object read from its file', 'untouched', 'lump data of ' + where)
+                return False
+    return True
+
+
+def sessions(ctx, drv, files, T, tmp, t_end):
+    cand = [f for f in files if f.variant is not None and f.base is not None and f.rd is not None]
+    if len(cand) < 3:
+        return
+    fmap = {f.label: f for f in files}
+    rng = random.Random(f'C10-sessions:{ctx.seed}')
+    pend, reqs = [], []
+    for n in range(ctx.budget(40, 300)):
+        if time.time() > t_end:
+            ctx.count('skipped:time-budget(sessions)')
+            break
+        pool = [f for f in cand if not f.variant.lzma] if rng.random() < 0.8 else cand
+        sess = gen_session(rng, pool, len(T['names']))
+        records, problems = run_session(sess, fmap, T, tmp)
+        ctx.case({'session': sess}, nontrivial=True, sample_every=17)
+        ctx.count('session:%d-objects' % len(sess['files']))
+        for key, what in problems:
+            ctx.witness('session:' + key.split(':')[0], f'[session over {sess["files"]}] {what}', {'session': sess, 'seed': ctx.seed})
+        if drv is not None:
+            for o in range(len(sess['files'])):
+                f = fmap[sess['files'][o]]
+                reqs.append({'op': 'run', 'rd': f.rd, 'wd': f.wd, 'ops': session_model_ops(sess, o, T)})
+            pend.append((sess, records))
+    if drv is not None and reqs:
+        replies = drv.batch(reqs)
+        i = 0
+        for sess, records in pend:
+            k = len(sess['files'])
+            if compare_session(ctx, sess, records, replies[i:i + k], T):
+                ctx.traces_vs_impl += 1
+            i += k
+
+
 # ----------------------------------------------------------------------------- the check
 
 def _run_all(ctx, drv, T):
@@ -431,6 +574,7 @@ def _run_all(ctx, drv, T):
                 if drv is not None and orig is not None:
                     reqs.append({'op': 'run', 'rd': f.rd, 'wd': f.wd, 'ops': list(seq) + [-1]})
                     pend.append((f, seq, steps, orig))
+        sessions(ctx, drv, files, T, tmp, time.time() + ctx.budget(25, 240))
         if drv is not None and reqs:
             replies = drv.batch(reqs)
             for (f, seq, steps, orig), rep in zip(pend, replies):
@@ -480,6 +624,20 @@ def search(ctx):
     try:
         T = static_tables_fallback()
         for w in new:
+            if w['key'] not in seen and 'session' in w['input'] and len(seen) <= 4:
+                seen.add(w['key'])
+                sess = w['input']['session']
+                fmap = _session_fmap(sess, w['input'].get('seed', ctx.seed), tmp, ctx, T)
+                kind = w['key'].split(':', 1)[1]
+
+                def sfails(ops):
+                    _, probs = run_session({'files': sess['files'], 'ops': list(ops)}, fmap, T, tmp, tag='s')
+                    return any(k.split(':')[0] == kind for k, _ in probs)
+                if sfails(sess['ops']):
+                    small = common.ddmin(sess['ops'], sfails, budget=80)
+                    w['input']['shrunk_session'] = {'files': sess['files'], 'ops': small}
+                    w['what'] += ' (shrunk to ' + '; '.join(f"{sess['files'][o]}.{k}" + ('' if a is None else f"({T['names'][a]})") for o, k, a in small) + ')'
+                continue
             if w['key'] in seen or not w['input'].get('seq'):
                 continue
             seen.add(w['key'])
@@ -521,8 +679,33 @@ def _file_for(inp, tmp, ctx):
     return None
 
 
+def _session_fmap(sess, seed, tmp, ctx, T):
+    fmap = {}
+    for label in sess['files']:
+        f = _file_for({'variant': {'name': label}, 'seed': seed}, tmp, ctx)
+        with U.quiet():
+            prepare(ctx, f, T, tmp)
+        fmap[label] = f
+    return fmap
+
+
 def replay(ctx, payload):
     inp = payload.get('input') or {}
+    if 'session' in inp:
+        tmp = tempfile.mkdtemp(prefix='c10r_')
+        try:
+            T = static_tables_fallback()
+            sess = inp.get('shrunk_session') or inp['session']
+            fmap = _session_fmap(sess, inp.get('seed', ctx.seed), tmp, ctx, T)
+            _, problems = run_session(sess, fmap, T, tmp, tag='r')
+            print('session over', sess['files'])
+            for op in sess['ops']:
+                print('   ', op[0], op[1], '' if op[2] is None else T['names'][op[2]])
+            for k, what in problems:
+                print('  FAIL', k, '-', what)
+            return not problems
+        finally:
+            shutil.rmtree(tmp, ignore_errors=True)
     if 'seq' not in inp:
         print('replay file names a broken obligation/correspondence, no input to replay:', payload.get('broken_obligations'),
               payload.get('disagreements', [])[:1])
